@@ -188,6 +188,23 @@ Theorem C19_redelivered_head_is_noop : forall (s : sstate) (h : hdr),
   s_store s = Some h -> set_local_head s h = s /\ store_append_err (s_store s) h = false.
 Proof. exact slh_redeliver. Qed.
 
+(** *** The store shim as of /repo 7d16f07.  The machines use single-header appends
+    ([store_append], unaffected by that change) and represent the sync loop's list
+    appends by the events sync_part / sync_done, which put the store head AT the
+    synced header.  That is what the shim now guarantees for lists too: for one
+    header the list form is [store_append]; and an accepted list never leaves the head
+    pointer below a header it contains, even when it starts below the head and reaches
+    above it (the "straddle" that used to leave the pointer stale: Head() 22 -> 21). *)
+Theorem C19_shim_single_header : forall (st : option hdr) (h : hdr),
+  store_append_list st [h] = (store_append st h, store_append_err st h).
+Proof. exact store_append_list_single. Qed.
+
+Theorem C19_shim_list_head_covers : forall (sh : hdr) (l : list hdr) (st' : option hdr),
+  h_height sh + 1 < two64 -> (forall x, In x l -> h_height x + 1 < two64) ->
+  store_append_list (Some sh) l = (st', false) ->
+  h_height sh <= hgt st' /\ forall x, In x l -> h_height x <= hgt st'.
+Proof. exact store_append_list_covers. Qed.
+
 (** *** The sequential function IS the thread machine run without interleaving. *)
 Theorem C19_seq_is_solo_thread : forall p tv (c : cstate) (i : nat) (cto : Z) (a : gans) (b1 : bifres) (t : tans) (b2 : bifres),
   c_pc c i = PIdle -> f_open (c_f c) = None -> a <> GHang ->
@@ -247,6 +264,28 @@ Example ex_f19_fixed :
   local_head (c_s (p_c p2)) = Some (rf_h 20) /\ In (ORet 3 (ROk (rf_h 20))) t2.
 Proof. vm_compute. auto 12. Qed.
 
+(* the straddle schedule of harness/c03/straddle_test.go as a schedule of [prun]: four Head()
+   calls (each its own flight, subjective head 17) receive 18, 19, 20, 21 and stay parked after
+   their answers (pc PGot, not scheduled); gossip brings 19..22 (pending head 22); the four calls
+   go on, each storing its header adjacent to the store head (store head 21) and return 22; the
+   sync loop finishes (store head 22, nothing pending); a fifth call returns 22 - never 21 *)
+Definition st_call (i : nat) (n : N) : list pev :=
+  [PEv (CStep i ICall); PEv (CStep i INone); PEv (CStep i (IAns (GOk (rf_h n))))].
+Definition st_fin (i : nat) : list pev :=
+  [PEv (CStep i (ITail (TOk None))); PEv (CStep i (IBif rf_nob)); PEv (CStep i INone)].
+Definition st_sched : list pev :=
+  st_call 1 18 ++ st_call 2 19 ++ st_call 3 20 ++ st_call 4 21 ++
+  map (fun n => PEv (CGossip (rf_h n) rf_nob (TOk None))) [19; 20; 21; 22] ++
+  map (fun i => PEv (CStep i (IBif rf_nob))) [1; 2; 3; 4]%nat ++
+  st_fin 1 ++ st_fin 2 ++ st_fin 3 ++ st_fin 4 ++
+  [PEv CSyncDone] ++
+  [PEv (CStep 5 ICall); PEv (CStep 5 INone); PEv (CStep 5 (IAns GFail)); PEv (CStep 5 (IBif rf_nob))].
+Example ex_straddle :
+  let '(p1, tr) := prun rf_p rf_tv (pinit rf_s) st_sched in
+  rets_of tr = [ROk (rf_h 22); ROk (rf_h 22); ROk (rf_h 22); ROk (rf_h 22); ROk (rf_h 22)] /\
+  s_store (c_s (p_c p1)) = Some (rf_h 22) /\ s_pend (c_s (p_c p1)) = None.
+Proof. vm_compute. auto. Qed.
+
 Print Assumptions C19_monotone_seq.
 Print Assumptions C19_recent_no_traffic.
 Print Assumptions C19_stale_one_request.
@@ -268,3 +307,5 @@ Print Assumptions C19_singleflight_group_keeps.
 Print Assumptions C19_singleflight_group_init_fails.
 Print Assumptions C19_wf_invariant.
 Print Assumptions C19_redelivered_head_is_noop.
+Print Assumptions C19_shim_single_header.
+Print Assumptions C19_shim_list_head_covers.
